@@ -864,16 +864,22 @@ anchors(void)
     MC_ANCHOR(is_sym(nth(e.root, 3), "t"), "t_cxr cadddr");
     MC_ANCHOR(is_int(nth(nth(e.root, 4), 0), 5) && len_of(nth(e.root, 4)) == 1, "t_cxr caaddddr");
     MC_ANCHOR(is_int(nth(e.root, 5), 6), "t_cxr cadddddr");
-    /* the ledger is wired to the allocator sx.c really uses */
+    /* the ledger is wired to the allocator sx.c really uses: the five nodes of
+     * t_make_things are seen when made, and a free issued by sx.c is seen too
+     * (whether sx_destroy frees *everything* is a clause of the cases, not an
+     * anchor) */
     ledger_start();
     struct sx_node *t = sx_cons(sx_make_integer(1234567890), sx_cons(sx_make_symbol("foobarbaz"), sx_make_empty_list()));
     ledger.on = false;
-    MC_ANCHOR(ledger.live == 8, "t_make_things: 2 pairs (node + pair cell), integer, symbol (node + text), empty list = 8 allocations seen by the ledger");
+    MC_ANCHOR(ledger.live >= 5, "t_make_things: at least one allocation per node seen by the ledger");
     MC_ANCHOR(sx_is_the_integer(sx_car(t), 1234567890) && sx_is_the_symbol(sx_car(sx_cdr(t)), "foobarbaz"), "t_make_things");
-    ledger.on = true;
     sx_destroy(&t);
+    ledger_start();
+    struct sx_node *one = sx_make_integer(1);
+    const int before = ledger.live;
+    sx_destroy(&one);
     ledger.on = false;
-    MC_ANCHOR(ledger.live == 0, "sx_destroy returns all 8 to the ledger");
+    MC_ANCHOR(before >= 1 && ledger.live < before, "a free() issued by sx.c reaches the ledger");
 }
 
 int
@@ -881,9 +887,9 @@ main(int argc, char **argv)
 {
     mc_init(argc, argv);
     anchors();
-    const int maxlen = mc_thorough() ? 7 : 6;
-    const int maxnodes = mc_thorough() ? 6 : 5;
-    const int maxdepth = mc_thorough() ? 4 : 3;
+    const int maxlen = mc_thorough() ? 8 : 7;
+    const int maxnodes = mc_thorough() ? 7 : 6;
+    const int maxdepth = mc_thorough() ? 5 : 4;
     family_strings(maxlen);
     family_trees(maxnodes, maxdepth);
     if (trees_emitted < 1000 && mc.only < 0)
